@@ -358,13 +358,17 @@ class FileFormat(Enum):
 
 # TODO copied and adjusted from dnaio; upstream this
 def detect_file_format(file: BinaryIO) -> FileFormat:
-    if file.seekable():
+    # A GzipFile says it is seekable even when the compressed data comes from
+    # a pipe and going back is not possible, so prefer peek() where available.
+    # We cannot always use peek() because BytesIO objects do not suppert it
+    magic = b""
+    if hasattr(file, "peek"):
+        magic = file.peek(4)[0:4]  # type: ignore
+    if len(magic) < 4 and file.seekable():
+        # peek() is allowed to return fewer bytes than requested
         original_position = file.tell()
         magic = file.read(4)
         file.seek(original_position)
-    else:
-        # We cannot always use peek() because BytesIO objects do not suppert it
-        magic = file.peek(4)[0:4]  # type: ignore
     if magic.startswith(b"@") or magic == b"":
         # Pretend FASTQ for empty input
         return FileFormat.FASTQ
